@@ -325,6 +325,19 @@ func installNatives(it *Interp) {
 		}
 		return nil
 	}
+	n["slices.Grow"] = func(it *Interp, args []Value) []Value {
+		k, ok := args[1].(int64)
+		if !ok || k < 0 {
+			panic(undecided{"slices.Grow with " + describe(args[1])})
+		}
+		var elems []Value
+		if s, ok := args[0].(*SliceV); ok && s != nil {
+			elems = s.elems
+		}
+		out := make([]Value, len(elems), len(elems)+int(k))
+		copy(out, elems)
+		return []Value{&SliceV{elems: out}}
+	}
 	n["slices.Contains"] = func(it *Interp, args []Value) []Value {
 		if s, ok := args[0].(*SliceV); ok && s != nil {
 			for _, e := range s.elems {
@@ -1455,10 +1468,16 @@ func (m *model) runStmts(rg *region, stmts []ast.Stmt) (em *emission) {
 		}
 	}
 	// link and the left-recursion walk on an opaque child
-	if fd, _ := findDecl(it, "Tree", "link"); fd != nil {
+	if fd := findLinkDecl(it); fd != nil {
 		it.hooks[fd] = func(it *Interp, cl *Closure, args []Value) ([]Value, bool) {
-			if n, ok := args[1].(*Obj); ok && m.oinfo(n) != nil {
-				return nil, true
+			// the node being linked is the first node among the arguments (the rule it belongs to comes after it)
+			for _, a := range args {
+				if n, ok := a.(*Obj); ok && n != nil && n.t == m.nodeT {
+					if m.oinfo(n) != nil {
+						return nil, true
+					}
+					break
+				}
 			}
 			return nil, false
 		}
